@@ -97,6 +97,10 @@ def cross_interpreter(tuples: list[dict[str, Any]], seeds: tuple = (0, 1, 2, 7, 
     return None
 
 
+class SearchBudget(Exception):
+    pass
+
+
 def valid_greedy(work: dict[str, dict[str, float]], groups: list[list[int]],
                  W: int, colocate: bool,
                  placement: dict[str, dict[str, int]],
@@ -164,6 +168,10 @@ def valid_greedy(work: dict[str, dict[str, float]], groups: list[list[int]],
         key = (remaining, loads)
         if key in seen:
             return False
+        if len(seen) > 200000:
+            # instance with too many ties to decide within the budget: the
+            # validator abstains (never a reason for an alarm)
+            raise SearchBudget()
         seen.add(key)
         top = max(totals[l] for l in remaining)
         cands = [l for l in remaining
@@ -178,4 +186,7 @@ def valid_greedy(work: dict[str, dict[str, float]], groups: list[list[int]],
                         return True
         return False
 
-    return search(frozenset(work), tuple([0.0] * W))
+    try:
+        return search(frozenset(work), tuple([0.0] * W))
+    except SearchBudget:
+        return True
